@@ -3,8 +3,15 @@
 //! note: BOLT-12 amounts: the set of amounts an offer / refund builder accepts is the set its parser accepts (an amount a builder lets through must parse back, and the parser must not admit what no builder can produce): offers 1..=MAX_VALUE_MSAT, refunds 0..=MAX_VALUE_MSAT
 //! trusted: R15 (deep slices): the refusal condition of (a) `build` in macro offer_builder_methods (the guard of the `Some(Amount::Bitcoin { amount_msats })` arm), (b) the `(None, Some(amount_msats)) if ..` arm of TryFrom<FullOfferTlvStream> for OfferContents, (c) RefundBuilder::new and (d) RefundBuilder::deriving_signing_pubkey (macros refund_explicit_metadata_builder_methods / refund_builder_methods), (e) the `Some(amount_msats) if ..` arm of TryFrom<RefundTlvStream> for RefundContents, each verbatim as the body of a bool function of the amount; everything else of the five functions is dropped and not claimed (currency amounts, descriptions, chains, paths, metadata)
 //! trusted: the statement that the refusing branch returns Err(InvalidAmount) and the accepting one continues is carried by the anchors of the slices (the `return Err(Bolt12SemanticError::InvalidAmount)` that follows each condition is part of the pattern)
+//! trusted: assume_specification for core::cmp::max / core::cmp::min (std definitions): present in every unit so that a change that introduces them is verified instead of being rejected by the tool
 use vstd::prelude::*;
 verus! {
+use vstd::std_specs::cmp::*;
+use core::cmp;
+pub assume_specification<T: core::cmp::Ord>[core::cmp::max::<T>](a: T, b: T) -> (r: T)
+    ensures T::obeys_cmp_spec() ==> r == (if b.cmp_spec(&a) == core::cmp::Ordering::Less { a } else { b });
+pub assume_specification<T: core::cmp::Ord>[core::cmp::min::<T>](a: T, b: T) -> (r: T)
+    ensures T::obeys_cmp_spec() ==> r == (if b.cmp_spec(&a) == core::cmp::Ordering::Less { b } else { a });
 //@const lightning/src/ln/msgs.rs MAX_VALUE_MSAT
 pub open spec fn offer_amount_ok(a: u64) -> bool { 1 <= a <= 21_000_000u64 * 1_0000_0000u64 * 1000u64 }
 pub open spec fn refund_amount_ok(a: u64) -> bool { a <= 21_000_000u64 * 1_0000_0000u64 * 1000u64 }
